@@ -91,6 +91,22 @@ def obs_wide(case):
     return ev
 
 
+def obs_arr(case):
+    """an array value refused because of ONE element (not the first), then a valid array of the same type: the refusal leaves nothing
+    behind - the valid one round-trips (judged as an ordinary round trip)"""
+    from pyubx2 import val2bytes
+
+    t, b = case["t"], bytes.fromhex(case["b"])
+    bad = list(b)
+    if bad:
+        bad[case["bad"] % len(bad)] = (256, -1, "x", None, 1.5)[case["bad"] % 5]
+        try:
+            val2bytes(bad, t)
+        except Exception:  # noqa: BLE001 - meant to be refused
+            pass
+    return obs_opaque(case)
+
+
 def obs_text(case):
     """variable-length text (CH) and fixed character fields: bytes -> value -> bytes must be the identity on ASCII text, whatever
     the text looks like (backslashes, escape-like sequences, quotes ...)"""
@@ -172,7 +188,9 @@ def obs_prot(case):
     out = []
     b1 = case["b1"]
     # one event per byte pair; packed 256 per case to keep the driver cheap
-    return [{"kind": "prot", "b1": b1, "b2": b2, "out": int(protocol(bytes((b1, b2)) + b"\x00\x00"))} for b2 in range(256)]
+    # the protocol is a function of the two header bytes: whatever follows them (nothing, zeros, text with non-ASCII bytes, a line end)
+    tails = (b"\x00\x00", b"", b"TXT,01,01,02,Antenna temp 25\xb0C*8B\r\n", b"\xff\xfe\xb5\x62", b"\r\n")
+    return [{"kind": "prot", "b1": b1, "b2": b2, "out": int(protocol(bytes((b1, b2)) + tails[(b1 + b2) % len(tails)]))} for b2 in range(256)]
 
 
 def obs_att(case):
@@ -202,7 +220,7 @@ def obs_sphp2(case):
 
 
 OBSERVERS = {"text": obs_text, "sphp2": obs_sphp2, "int": obs_int, "dec": obs_dec, "opaque": obs_opaque, "nom": obs_nom, "ck": obs_ck, "time": obs_time, "bits": obs_bits,
-             "att": obs_att, "sphp": obs_sphp, "wide": obs_wide}
+             "att": obs_att, "sphp": obs_sphp, "wide": obs_wide, "arr": obs_arr}
 from .optchild import obs_opt_single  # noqa: E402
 
 OBSERVERS["opt"] = obs_opt_single
